@@ -65,6 +65,9 @@ PROGRAMS = {
     # an SLM mask in Ising mode: the sequence itself computes the DMM pulse from the device's DMM limits
     "slm": [["declare", "g", "ryd_glob"], ["config_slm", ["q0", "q1"]], ["add", "g", ["cp", 52, 8.0, 0.0, 0.0]],
             ["add", "g", ["cp", 40, 1.0, 0.0, 1.0]]],
+    # XY mode with an SLM mask (no DMM involved)
+    "xy_slm": [["declare", "mw", "mw_global"], ["config_slm", ["q0"]], ["add", "mw", ["cp", 52, 1.0, 0.0, 0.0]],
+               ["add", "mw", ["cp", 40, 1.0, 0.0, 1.0]]],
     # the program ends with a retarget (nothing after it re-checks the sequence length)
     "retarget_tail": [["declare", "l", "ryd_loc", "q0"], ["add", "l", ["cp", 400, 1.0, 0.0, 0.0]], ["target", "l", "q1"]],
     # the phase-drift correction of disable_eom_mode moves the reference that a second channel of the basis then uses
@@ -119,7 +122,7 @@ def mk_device_b(inp, A, shape):
         reusable_channels=shape.get("reusable", False),
         max_sequence_duration=(inp.int("B.max_sequence_duration", 1, None) if shape.get("maxseq") else None),
         channel_objects=tuple(chans[c] for c in order), channel_ids=tuple(("B_" + c if shape.get("rename") else c) for c in order),
-        dmm_objects=tuple(dmms.values()))
+        dmm_objects=tuple(dmms.values()), **({"interaction_coeff_xy": A.interaction_coeff_xy} if A.interaction_coeff_xy is not None else {}))
     return B, sym
 
 
@@ -264,6 +267,8 @@ def kernels(tier):
     for conc in ([["dmm_0", "bottom_detuning", -5.0]], [["ryd_glob", "max_amp", 60.0]]):
         ks.append(("switch", dict(program="slm", sym=[], concrete=conc, strict=True)))
     ks.append(("switch", dict(program="slm", sym=[["ryd_glob", "max_amp"]], strict=False)))
+    for strict in (True, False):
+        ks.append(("switch", dict(program="xy_slm", device="mock", sym=[["mw_global", "max_amp"]], strict=strict)))
     # DMM channels are compared like every other channel under strict
     for conc in ([["dmm_0", "clock_period", 8]], [["dmm_0", "mod_bandwidth", 10.0]], [["dmm_0", "min_duration", 16]]):
         ks.append(("switch", dict(program="dmm", sym=[], concrete=conc, strict=True)))
